@@ -10,7 +10,7 @@ import importlib
 import numpy as np
 import z3
 
-from symnum import CTX, oarr, symarr, toz, explore
+from symnum import CTX, S, oarr, symarr, toz, explore
 from .common import Case
 from .wrappers import WRAPPERS, apply_cuts, tetra_mesh, UNIT_TETRA
 
@@ -28,6 +28,7 @@ BOUNDS = [
     "1 row per call, all real inputs under the setter preconditions, no margin around special sets",
     "Polyline endpoints, Triangle / Tetrahedron vertices from fixed rational lists (observer, excitation symbolic)",
     "documented singular sets excluded: Dipole position; vertices (and, for this harness, edges) of Triangle-based sources",
+    "CylinderSegment: section angles within [-720, 720] degrees; the cut segment kernel is treated as undefined exactly on the 8 corners of the section",
 ]
 CUTS = [
     "cel / ellipe / ellipk / cel_iter / cylinder-segment H kernel bodies are cut; cel, ellipe, ellipk call sites carry their argument preconditions "
@@ -36,7 +37,7 @@ CUTS = [
 ASSUMPTIONS = ["real arithmetic: overflow, underflow and cancellation are not modelled", "atan2, sin, cos, atan are total"]
 NOT_DECIDED = [
     "termination / iteration counts of cel0, celv, cel_iter*, el3* (nested square roots defeat nlsat)",
-    "everything specific to doubles (1e12 distances, r**5 underflow)",
+    "everything specific to doubles (1e12 distances, r**5 underflow); in particular NaN a few ulp next to a CylinderSegment corner (see DESIGN section 5)",
     "the 26 case evaluators inside magnet_cylinder_segment_Hfield (cut)",
     "definedness inside triangle_Bfield (log of sums of nested square roots): obligations end `unknown`; attempted only in the thorough tier",
 ]
@@ -87,6 +88,20 @@ def _singular(name, A):
     return z3.BoolVal(False)
 
 
+def _slab_band(A):
+    """formula: r or z lies OUTSIDE an absolute 1e-14 slab around a face but within 1e-11 of it (where close() still calls it 'on the face')"""
+    o = [S(toz(A["observers"][0, k])) for k in range(3)]
+    r = (o[0] * o[0] + o[1] * o[1]).sqrt()
+    d = [S(toz(A["dimension"][0, k])) for k in range(3)]
+    lo, hi = z3.RealVal("1/100000000000000"), z3.RealVal("1/100000000000")
+    terms = []
+    for a, b in ((r, d[0]), (r, d[1]), (o[2], d[2] / 2), (o[2], -d[2] / 2)):
+        dz = (a - b).z
+        ad = z3.If(dz >= 0, dz, -dz)
+        terms.append(z3.And(ad > lo, ad <= hi))
+    return z3.Or(*terms)
+
+
 def run_case(case, info):
     C = Case(case, info)
     if case["wrapper"] == "twin":
@@ -102,6 +117,10 @@ def run_case(case, info):
     for k, v in (case.get("fixed") or {}).items():
         A[k] = oarr(np.array(v, dtype=float))
     CTX.pre = w.pre_all(A)
+    if name in ("cylseg", "cylseg_internal"):
+        # stated bound: section angles within +-720 degrees (the setter accepts any phi1 < phi2 <= phi1 + 360, e.g. 1.8e17 degrees, where doubles
+        # cannot resolve the section any more)
+        CTX.pre += [toz(A["dimension"][0, 3]) >= -720, toz(A["dimension"][0, 4]) <= 720]
     inputs = w.inputs(A)
     sing = _singular(name, A)
 
@@ -166,4 +185,16 @@ def replay(spec):
     w = WRAPPERS[spec["wrapper"]]
     out = np.asarray(w.call_float(spec["field"], spec["args"]), dtype=float)
     bad = not np.all(np.isfinite(out))
+    if not bad and spec["wrapper"] in ("cylseg", "cylseg_internal") and not spec.get("_refined"):
+        # the symbolic domain of the cut kernel is "within a few ulp of a corner": look at the ulp-neighbours of the model's observer as well
+        o = np.array(spec["args"]["observers"], dtype=float)
+        r, phi = np.hypot(o[0, 0], o[0, 1]), np.arctan2(o[0, 1], o[0, 0])
+        for k in range(-4, 5):
+            ph = phi
+            for _ in range(abs(k)):
+                ph = np.nextafter(ph, np.inf if k > 0 else -np.inf)
+            o2 = [[float(r * np.cos(ph)), float(r * np.sin(ph)), float(o[0, 2])]]
+            ok, detail = replay(dict(spec, args=dict(spec["args"], observers=o2), _refined=True))
+            if ok:
+                return ok, detail
     return bad, f"{w.func}(field={spec['field']}, {spec['args']}) = {out.tolist()}"
